@@ -50,6 +50,7 @@ type EchoCli struct {
 func init() {
 	Register(&Scenario{
 		Name:        "conc",
+		OptsToo:     true,
 		LazyDescToo: true,
 		LazyToo:     true,
 		DescToo:     true,
